@@ -204,6 +204,15 @@ class Evaluator:
             if pa == q:
                 return iv
         d = DEFS.get(a)
+        if a.startswith("const:"):
+            # the floating-point constants of the standard library
+            tail = a.rsplit("::", 1)[-1]
+            known = {"INFINITY": (INF, INF), "NEG_INFINITY": (-INF, -INF), "EPSILON": (2.0 ** -52, 2.0 ** -52), "MIN_POSITIVE": (2.0 ** -1022, 2.0 ** -1022),
+                     "MAX": (1.7976931348623157e308, 1.7976931348623157e308), "MIN": (-1.7976931348623157e308, -1.7976931348623157e308)}
+            if tail in known and ("f64" in a or "f32" in a):
+                return IV(known[tail][0], known[tail][1], False)
+            if tail == "NAN":
+                return IV(None, None, True)
         if ATOM_TY.get(a) in ("usize", "u8", "u16", "u32", "u64") and (d is None or d[0] == "widen"):
             return IV(0.0, INF, False)    # unsigned integers: non-negative, never NaN
         if d is None or depth > 40 or d[0] == "widen":
